@@ -550,6 +550,174 @@ Fixpoint supported (t : ty) : bool :=
   end.
 
 (* ------------------------------------------------------------------ *)
+(* 5c. The type caches over type GRAPHS (cycles of types allowed)        *)
+(* ------------------------------------------------------------------ *)
+
+(* Section 5 describes a Go type by the TREE of its component types, which a
+   self-referential type does not have.  Here a program's types are a finite
+   table: every type is a number, and a composite type lists the numbers of its
+   component types (struct fields, element, key and value types), so the table
+   may contain cycles (type T struct { Next *T; ... }).
+
+   What the tree model cannot show: the generators CAPTURE the iterators of
+   their component types when they run (newPointerIterator, newStructIterator,
+   ... call GetIteratorForType once and keep the function).  While T is being
+   generated its placeholder is what GetIteratorForType(T) returns, so the
+   iterator of *T, generated inside the generation of T, captures T's
+   placeholder and is stored in the sync.Map as a finished iterator.  Each
+   generation attempt is a CELL; a finished iterator keeps the cells of its
+   components. *)
+Inductive gnode :=
+| GLeaf                    (* supported, no components the session has to generate *)
+| GBad                     (* a kind the generator panics on *)
+| GComp (cs : list N)      (* component types *)
+| GDyn.                    (* interface type: the iterator asks the cache at run time *)
+Definition gtable := list (N * gnode).
+
+Fixpoint gnode_of (t : N) (tb : gtable) : gnode :=
+  match tb with
+  | [] => GLeaf
+  | (t', n) :: r => if t =? t' then n else gnode_of t r
+  end.
+
+(* a value, seen from its type: per component the part of the value that is
+   reached (None: nil pointer, empty slice / map); an interface slot holds a
+   value of a concrete type, or nothing *)
+Inductive vtree :=
+| VT (kids : list (option vtree))
+| VDyn (t : N) (inner : vtree)
+| VNil.
+
+Inductive cstat := SProg | SDone | SFail.
+Record gcell := { gc_ty : N; gc_stat : cstat; gc_links : list N }.
+
+Record gcache := {
+  g_map : list (N * N);        (* the sync.Map: type -> cell *)
+  g_cells : list (N * gcell);  (* every placeholder / iterator created so far, by cell number (from 1) *)
+  g_next : N;
+}.
+Definition gcache_init : gcache := {| g_map := []; g_cells := []; g_next := 1 |}.
+
+Fixpoint assocN {A} (k : N) (l : list (N * A)) : option A :=
+  match l with
+  | [] => None
+  | (k', v) :: r => if k =? k' then Some v else assocN k r
+  end.
+Fixpoint removeN {A} (k : N) (l : list (N * A)) : list (N * A) :=
+  match l with
+  | [] => []
+  | (k', v) :: r => if k =? k' then removeN k r else (k', v) :: removeN k r
+  end.
+
+Definition g_new_cell (c : gcache) (t : N) : gcache * N :=
+  let id := g_next c in
+  ({| g_map := (t, id) :: g_map c;
+      g_cells := (id, {| gc_ty := t; gc_stat := SProg; gc_links := [] |}) :: g_cells c;
+      g_next := N.succ id |}, id).
+Definition g_set_cell (c : gcache) (id : N) (cell : gcell) : gcache :=
+  {| g_map := g_map c; g_cells := (id, cell) :: g_cells c; g_next := g_next c |}.
+(* generation finished: wg.Done(); Store(t, iterator) *)
+Definition g_finish (c : gcache) (t id : N) (links : list N) : gcache :=
+  g_set_cell c id {| gc_ty := t; gc_stat := SDone; gc_links := links |}.
+(* generation failed: Delete(t); the placeholder re-raises the error from now on; wg.Done() *)
+Definition g_fail (c : gcache) (t id : N) : gcache :=
+  let c1 := g_set_cell c id {| gc_ty := t; gc_stat := SFail; gc_links := [] |} in
+  {| g_map := removeN t (g_map c1); g_cells := g_cells c1; g_next := g_next c1 |}.
+
+(* the interface iterator belongs to the root session: cell 0, never stored here *)
+Definition dyn_cell : N := 0.
+
+(* GetIteratorForType.  [fuel] bounds the NESTING of generations: a type whose
+   generation is in progress is found in the map, so the nesting never exceeds
+   the number of types.  Result: the cell handed to the caller, None = panic. *)
+Fixpoint ggen (fuel : nat) (tb : gtable) (c : gcache) (t : N) : gcache * option N :=
+  match fuel with
+  | O => (c, None)
+  | S f =>
+    match gnode_of t tb with
+    | GDyn => (c, Some dyn_cell)
+    | node =>
+      match assocN t (g_map c) with
+      | Some id => (c, Some id)              (* stored: a placeholder or a finished iterator *)
+      | None =>
+          let '(c1, id) := g_new_cell c t in
+          match node with
+          | GLeaf => (g_finish c1 t id [], Some id)
+          | GBad => (g_fail c1 t id, None)
+          | GComp cs =>
+              let '(c2, links) :=
+                (fix go (c : gcache) (l : list N) (acc : list N) : gcache * option (list N) :=
+                   match l with
+                   | [] => (c, Some (rev acc))
+                   | u :: l' =>
+                       match ggen f tb c u with
+                       | (c', Some k) => go c' l' (k :: acc)
+                       | (c', None) => (c', None)
+                       end
+                   end) c1 cs [] in
+              match links with
+              | Some ls => (g_finish c2 t id ls, Some id)
+              | None => (g_fail c2 t id, None)
+              end
+          | GDyn => (c, Some dyn_cell)
+          end
+      end
+    end
+  end.
+
+Definition gfuel (tb : gtable) : nat := S (S (length tb)).
+
+(* running an iterator (a cell) over a value *)
+Fixpoint gvisit (tb : gtable) (c : gcache) (cell : N) (v : vtree) : gcache * cres :=
+  match v with
+  | VNil => (c, COk)
+  | VDyn t inner =>
+      (* iterateInterface: GetIteratorForType(elem.Type()) at run time *)
+      match ggen (gfuel tb) tb c t with
+      | (c1, Some k) => gvisit tb c1 k inner
+      | (c1, None) => (c1, CErr)
+      end
+  | VT kids =>
+      match assocN cell (g_cells c) with
+      | None => (c, CErr)
+      | Some cl =>
+          match gc_stat cl with
+          | SProg => (c, CHang)          (* wg.Wait() on a placeholder nobody will release *)
+          | SFail => (c, CErr)           (* the placeholder re-raises the generation error *)
+          | SDone =>
+              (fix go (c : gcache) (ks : list (option vtree)) (ls : list N) : gcache * cres :=
+                 match ks, ls with
+                 | Some k :: ks', l :: ls' =>
+                     match gvisit tb c l k with
+                     | (c', COk) => go c' ks' ls'
+                     | (c', r) => (c', r)
+                     end
+                 | None :: ks', _ :: ls' => go c ks' ls'
+                 | _, _ => (c, COk)
+                 end) c kids (gc_links cl)
+          end
+      end
+  end.
+
+(* Marshal of a value of type t *)
+Definition gcache_call (tb : gtable) (c : gcache) (op : N * vtree) : gcache * cres :=
+  match ggen (gfuel tb) tb c (fst op) with
+  | (c1, Some k) => gvisit tb c1 k (snd op)
+  | (c1, None) => (c1, CErr)
+  end.
+
+Fixpoint gcache_run_all (tb : gtable) (c : gcache) (ops : list (N * vtree)) : list cres :=
+  match ops with
+  | [] => []
+  | op :: r =>
+      let '(c', res) := gcache_call tb c op in
+      match res with
+      | CHang => [CHang]
+      | _ => res :: gcache_run_all tb c' r
+      end
+  end.
+
+(* ------------------------------------------------------------------ *)
 (* 5b. Marshaler and unmarshaler as owners of their parts                *)
 (* ------------------------------------------------------------------ *)
 
@@ -578,8 +746,10 @@ Inductive reuse_case :=
        observed: the source reads the limited, reused decoder performed and whether it failed *)
 | CbeEncHist (docs : list (list event)) (seen : list (option N * bytes))
 | CteEncHist (docs : list (list cev)) (seen : list (option N * bytes))
-| CacheHist (dynamic : bool) (ops : list ty) (seen : list cres).
+| CacheHist (dynamic : bool) (ops : list ty) (seen : list cres)
     (* a hang ends the history: the instance is never used again *)
+| CacheGraphHist (tb : gtable) (ops : list (N * vtree)) (seen : list cres).
+    (* marshaler histories over a table of (possibly self-referential) types *)
 
 Definition rules_obs_eqb (a b : list event * option N) : bool :=
   list_eqb event_eqb (fst a) (fst b) && option_eqb N.eqb (snd a) (snd b).
@@ -620,4 +790,6 @@ Definition reuse_case_ok (k : reuse_case) : bool :=
       list_eqb enc_obs_eqb (run_all cte_call cte_init docs) seen
   | CacheHist dynamic ops seen =>
       list_eqb cres_eqb (cache_run_all dynamic cache_init ops) seen
+  | CacheGraphHist tb ops seen =>
+      list_eqb cres_eqb (gcache_run_all tb gcache_init ops) seen
   end.
